@@ -233,7 +233,10 @@ class C05(Property):
                     at = rng.randrange(max(live, 1))
                     plan = [f for f in plan if f["at"] < at - 1]
                     plan.append({"kind": "partial", "at": at,
-                                 "text": "/* unterminated"})
+                                 "text": rng.choice([
+                                     "/* unterminated",
+                                     "/* unterminated\n",
+                                     "/* lost its end\nX = 1\n"])})
             if not plan:
                 continue
             first = plan[0]["at"]
